@@ -5,17 +5,17 @@ From NM Require Import MiniGo Contract.
 From NP Require Import FlowProofs.
 Import ListNotations.
 
-Lemma value_eqb_eq a b : value_eqb a b = true <-> a = b.
-Proof. destruct a, b; cbn; split; intros H; try discriminate; auto. Qed.
+Lemma value_eqb_eq a b : value_eqb a b = true <-> anil a = anil b.
+Proof. unfold value_eqb. split; intros H; [now apply eqb_prop | rewrite H; apply eqb_reflx]. Qed.
 
 Section Sets.
   Variable vars : list nat.
 
   (* a concrete store (locals and package-level variables) is represented by an abstract local store *)
-  Definition sim (s a : store) : Prop := forall x, In x vars -> sget s (VL x) = sget a (VL x).
+  Definition sim (s a : store) : Prop := forall x, In x vars -> anil (sget s (VL x)) = anil (sget a (VL x)).
   Definition covers (S : list store) (s : store) : Prop := exists a, In a S /\ sim s a.
 
-  Lemma st_eqb_spec a b : st_eqb vars a b = true <-> forall x, In x vars -> sget a (VL x) = sget b (VL x).
+  Lemma st_eqb_spec a b : st_eqb vars a b = true <-> forall x, In x vars -> anil (sget a (VL x)) = anil (sget b (VL x)).
   Proof.
     unfold st_eqb. rewrite forallb_forall. split; intros H x Hx.
     - apply value_eqb_eq. auto.
@@ -71,11 +71,14 @@ Section Sound.
   Variable prog : program.
   Variable vars : list nat.
 
-  Lemma hvals_sound s a at_ : sim vars s a -> incl (latom at_) vars -> In (eval_atom s at_) (hvals a at_).
+  Lemma hvals_sound s a at_ : sim vars s a -> incl (latom at_) vars ->
+    exists v, In v (hvals a at_) /\ anil v = anil (eval_atom s at_).
   Proof.
-    intros Hs Hi. destruct at_ as [| |[x|k]]; cbn; auto.
-    - left. symmetry. apply Hs. apply Hi. left. reflexivity.
-    - destruct (sget s (VG k)); cbn; auto.
+    intros Hs Hi. destruct at_ as [| |[x|k]]; cbn.
+    - exists VNil. auto.
+    - exists (VPtr None). auto.
+    - exists (sget a (VL x)). split; auto. symmetry. apply Hs. apply Hi. left. reflexivity.
+    - destruct (sget s (VG k)); [exists VNil|exists (VPtr None)]; cbn; auto.
   Qed.
 
   Lemma hcond_sound c : forall s a oracle b o', sim vars s a -> incl (lcond c) vars ->
@@ -84,10 +87,10 @@ Section Sound.
     induction c as [|x|d x|c IH|c1 IH1 c2 IH2|c1 IH1 c2 IH2]; intros s a oracle b o' Hs Hi He; cbn in He, Hi |- *.
     - destruct (ask oracle) as [b0 o0]. inversion He; subst. destruct b; cbn; auto.
     - inversion He; subst. destruct x as [x|k].
-      + rewrite <- (Hs x) by (apply Hi; left; reflexivity). left. reflexivity.
+      + rewrite <- (Hs x) by (apply Hi; left; reflexivity). left. destruct (sget s (VL x)); reflexivity.
       + destruct (sget s (VG k)); cbn; auto.
     - destruct x as [x|k].
-      + rewrite <- (Hs x) by (apply Hi; left; reflexivity). destruct (sget s (VL x)); [discriminate|].
+      + rewrite <- (Hs x) by (apply Hi; left; reflexivity). destruct (sget s (VL x)); [discriminate|]. cbn.
         destruct (ask oracle) as [b0 o0]. inversion He; subst. destruct b; cbn; auto.
       + destruct (sget s (VG k)); [discriminate|]. destruct (ask oracle) as [b0 o0]. inversion He; subst. destruct b; cbn; auto.
     - destruct (eval_cond s c oracle) as [b0 o0|] eqn:E; [|discriminate]. inversion He; subst.
@@ -104,18 +107,18 @@ Section Sound.
       + eapply IH2; eauto. intros y Hy; apply Hi; apply in_or_app; auto.
   Qed.
 
-  Lemma sim_sset_local s a x v : sim vars s a -> sim vars (sset s (VL x) v) (sset a (VL x) v).
-  Proof. intros H y Hy. rewrite !sget_sset. destruct (var_eqb (VL x) (VL y)); auto. Qed.
+  Lemma sim_sset_local s a x v v' : sim vars s a -> anil v = anil v' -> sim vars (sset s (VL x) v) (sset a (VL x) v').
+  Proof. intros H E y Hy. rewrite !sget_sset. destruct (var_eqb (VL x) (VL y)); auto. Qed.
   Lemma sim_sset_global s a k v : sim vars s a -> sim vars (sset s (VG k) v) a.
   Proof. intros H y Hy. rewrite sget_sset. cbn. auto. Qed.
 
   (* assigning any value the abstraction allows *)
-  Lemma assign_covers S s a x v (vf : store -> list value) :
-    In a S -> sim vars s a -> In v (vf a) ->
+  Lemma assign_covers S s a x v v' (vf : store -> list value) :
+    In a S -> sim vars s a -> In v' (vf a) -> anil v = anil v' ->
     covers vars (fold_right (st_add vars) [] (flat_map (fun a => assign_all vars a x (vf a)) S)) (sset s x v).
   Proof.
-    intros Ha Hs Hv. apply covers_fold_add. left. destruct x as [x|k]; cbn.
-    - exists (sset a (VL x) v). split; [|now apply sim_sset_local].
+    intros Ha Hs Hv E. apply covers_fold_add. left. destruct x as [x|k]; cbn.
+    - exists (sset a (VL x) v'). split; [|now apply sim_sset_local].
       apply in_flat_map. exists a. split; auto. cbn. apply in_map. auto.
     - exists a. split; [|now apply sim_sset_global]. apply in_flat_map. exists a. split; auto. cbn. auto.
   Qed.
@@ -151,7 +154,7 @@ Section Sound.
     end.
   Proof.
     induction fuelx as [|fuelx IH]; intros st s oracle S r Hh Hi Hc; cbn [exec]; auto.
-    destruct st as [| s1 s2 | x a | cs x g args | d x | c s1 s2 | c body | a]; cbn in Hh, Hi.
+    destruct st as [| s1 s2 | x a | cs x g args | d x | c s1 s2 | c body | a | x ik j | cs d x xi ik m args]; cbn in Hh, Hi.
     - inversion Hh; subst. exact Hc.
     - destruct (hreach vars hf s1 S) as [r1|] eqn:E1; [|discriminate].
       destruct (hreach vars hf s2 (h_norm r1)) as [r2|] eqn:E2; [|discriminate]. inversion Hh; subst. cbn.
@@ -164,24 +167,27 @@ Section Sound.
         intros Hv. rewrite (R2 Hv). apply orb_true_r.
       + intros Hv. now rewrite (R1 Hv).
     - inversion Hh; subst. cbn. destruct Hc as [a0 [Ha Hs]].
-      eapply (assign_covers S s a0 x (eval_atom s a) (fun s0 => hvals s0 a)); eauto. eapply hvals_sound; eauto. intros y Hy; apply Hi; apply in_or_app; auto.
+      destruct (hvals_sound s a0 a Hs) as [v' [Hv' Ev]]; [intros y Hy; apply Hi; apply in_or_app; auto|].
+      eapply (assign_covers S s a0 x (eval_atom s a) v' (fun s0 => hvals s0 a)); eauto.
     - inversion Hh; subst. cbn. destruct Hc as [a0 [Ha Hs]].
       assert (Step : forall s1 v, sim vars s1 a0 ->
                 covers vars (match x with
-                             | Some y => fold_right (st_add vars) [] (flat_map (fun s0 => assign_all vars s0 y [VNil; VPtr]) S)
+                             | Some y => fold_right (st_add vars) [] (flat_map (fun s0 => assign_all vars s0 y [VNil; VPtr None]) S)
                              | None => S end)
                        (match x with Some y => sset s1 y v | None => s1 end)).
       { intros s1 v H1. destruct x as [y|]; [|exists a0; auto].
-        eapply (assign_covers S s1 a0 y v (fun _ => [VNil; VPtr])); eauto. destruct v; cbn; auto. }
+        eapply (assign_covers S s1 a0 y v (if anil v then VNil else VPtr None) (fun _ => [VNil; VPtr None])); eauto;
+          destruct v; cbn; auto. }
       destruct (nth_error (p_funcs prog) g) as [fd|].
       + destruct (exec prog fuelx (f_body fd) (bind_params 0 (map (eval_atom s) args) ++ globals_of s) oracle) as [s' o'|v s' o'|d|]; auto.
         * apply Step. now apply sim_after.
         * apply Step. now apply sim_after.
       + destruct x as [y|]; [|exists a0; auto].
         apply covers_fold_add. left. destruct y as [y|k]; cbn.
-        * exists (sset a0 (VL y) (sget s (VL y))). split.
-          -- apply in_flat_map. exists a0. split; auto. cbn. destruct (sget s (VL y)); auto.
-          -- intros z Hz. rewrite sget_sset. cbn. destruct (Nat.eqb y z) eqn:E; auto. apply Nat.eqb_eq in E. now subst.
+        * exists (sset a0 (VL y) (if anil (sget s (VL y)) then VNil else VPtr None)). split.
+          -- apply in_flat_map. exists a0. split; auto. cbn. destruct (sget s (VL y)); cbn; auto.
+          -- intros z Hz. rewrite sget_sset. cbn. destruct (Nat.eqb y z) eqn:E; auto. apply Nat.eqb_eq in E. subst.
+             destruct (sget s (VL z)); reflexivity.
         * exists a0. split; auto. apply in_flat_map. exists a0. split; auto. cbn. auto.
     - inversion Hh; subst. cbn. destruct Hc as [a0 [Ha Hs]]. destruct (sget s x) eqn:E; auto.
       destruct x as [x|k]; [|exists a0; auto].
@@ -230,8 +236,30 @@ Section Sound.
           destruct (exec prog fuelx (SWhile c body) s' o'') as [s2 o2|v s2 o2|d|]; auto.
       + apply covers_filter. exists a0. repeat split; auto. apply existsb_exists. exists false. auto.
     - inversion Hh; subst. cbn. intros Hv. destruct Hc as [a0 [Ha Hs]].
-      apply existsb_exists. exists a0. split; auto. apply existsb_exists. exists VNil. split; auto.
-      rewrite <- Hv. eapply hvals_sound; eauto.
+      apply existsb_exists. exists a0. split; auto. apply existsb_exists.
+      destruct (hvals_sound s a0 a Hs Hi) as [v' [Hv' Ev]]. exists v'. split; auto. rewrite Ev, Hv. reflexivity.
+    - inversion Hh; subst. cbn. destruct Hc as [a0 [Ha Hs]].
+      eapply (assign_covers S s a0 x (VPtr (Some (ik, j))) (VPtr None) (fun _ => [VPtr None])); eauto. cbn. auto.
+    - inversion Hh; subst. cbn. destruct Hc as [a0 [Ha Hs]].
+      destruct (sget s xi) as [|[[k' j]|]] eqn:Exi; auto.
+      destruct (if Nat.eqb ik k' then nth_error (nth j (p_impls prog) []) m else None) as [f|]; auto.
+      destruct (nth_error (p_funcs prog) f) as [fd|]; auto.
+      set (S' := match xi with VL _ => filter (fun s0 => negb (anil (sget s0 xi))) S | VG _ => S end).
+      assert (Ha' : In a0 S').
+      { subst S'. destruct xi as [y|g]; auto. apply filter_In. split; auto.
+        rewrite <- (Hs y) by (apply Hi; apply in_or_app; right; apply in_or_app; left; left; reflexivity). now rewrite Exi. }
+      assert (Step : forall s1 v, sim vars s1 a0 ->
+                covers vars (match x with
+                             | Some y => fold_right (st_add vars) [] (flat_map (fun s0 => assign_all vars s0 y [VNil; VPtr None]) S')
+                             | None => S' end)
+                       (match x with Some y => sset s1 y v | None => s1 end)).
+      { intros s1 v H1. destruct x as [y|]; [|exists a0; auto].
+        eapply (assign_covers S' s1 a0 y v (if anil v then VNil else VPtr None) (fun _ => [VNil; VPtr None])); eauto;
+          destruct v; cbn; auto. }
+      match goal with |- context [exec prog fuelx (f_body fd) ?st0 oracle] =>
+        destruct (exec prog fuelx (f_body fd) st0 oracle) as [s' o'|v s' o'|d'|]; auto end.
+      + apply Step. now apply sim_after.
+      + apply Step. now apply sim_after.
   Qed.
 End Sound.
 
@@ -241,15 +269,15 @@ Theorem infer_sem_sound prog hf fd : infer_sem hf fd = true -> contract_true pro
 Proof.
   unfold infer_sem. intros H. apply andb_true_iff in H. destruct H as [Hn H].
   set (vars := 0 :: lstmt (f_body fd)) in *.
-  destruct (hreach vars hf (f_body fd) [[(VL 0, VPtr)]]) as [r|] eqn:Eh; [|discriminate].
+  destruct (hreach vars hf (f_body fd) [[(VL 0, VPtr None)]]) as [r|] eqn:Eh; [|discriminate].
   apply andb_true_iff in H. destruct H as [Hb Hnorm]. apply negb_true_iff in Hb.
   destruct (h_norm r) eqn:En; [|discriminate].
-  intros fuel gs oracle Hgs.
-  assert (Hc : covers vars [[(VL 0, VPtr)]] (bind_params 0 [VPtr] ++ gs)).
-  { exists [(VL 0, VPtr)]. split; [left; reflexivity|]. intros x _. cbn. destruct x as [|x]; auto. }
+  intros fuel gs oracle dd Hgs.
+  assert (Hc : covers vars [[(VL 0, VPtr None)]] (bind_params 0 [VPtr dd] ++ gs)).
+  { exists [(VL 0, VPtr None)]. split; [left; reflexivity|]. intros x _. cbn. destruct x as [|x]; auto. now rewrite Hgs. }
   assert (Hi : incl (lstmt (f_body fd)) vars) by (intros y Hy; right; auto).
   pose proof (hreach_sound prog vars hf fuel (f_body fd) _ oracle _ r Eh Hi Hc) as R.
-  destruct (exec prog fuel (f_body fd) (bind_params 0 [VPtr] ++ gs) oracle) as [s' o'|v s' o'|d|]; auto.
+  destruct (exec prog fuel (f_body fd) (bind_params 0 [VPtr dd] ++ gs) oracle) as [s' o'|v s' o'|d|]; auto.
   - rewrite En in R. exact (covers_nil vars s' R).
-  - destruct v; auto. rewrite (R eq_refl) in Hb. discriminate.
+  - destruct v; [|discriminate]. rewrite (R eq_refl) in Hb. discriminate.
 Qed.
